@@ -265,7 +265,7 @@ func canon(v any) string { return vl.Enc(v) }
 
 // ----- string pool with `$`-forms -----
 
-var c04Vars = []string{"FOO", "BAR", "EMPTY", "UNSET", "A", "Mixed_1", "X9"}
+var c04Vars = []string{"FOO", "BAR", "EMPTY", "UNSET", "A", "Mixed_1", "X9", "ÉTAPE", "Ωmega"}
 
 func c04Str(r *core.Rand) string {
 	v := core.Pick(r, c04Vars)
@@ -520,6 +520,16 @@ func runC04(c *ctx) error {
 				env["Y"] = "DOUBLE-EXPANDED"
 			}
 		}
+		if i%5 == 2 {
+			// two sibling keys that expand to the same name (one of the entries is lost, by a fixed rule); every
+			// other entry, containers included, is still expanded exactly once
+			m["${COLLIDE_A}"] = "from-a"
+			m["${COLLIDE_B}"] = []any{"$$Y", "x"}
+			env["COLLIDE_A"] = "same-name"
+			env["COLLIDE_B"] = "same-name"
+			env["Y"] = "DOUBLE-EXPANDED"
+			c.res.Hist("walker.sibling-keys-collide")
+		}
 		expand := func(s string) (string, bool) {
 			out, err := interpolate.Interpolate(env, s)
 			return out, err == nil
@@ -546,6 +556,28 @@ func runC04(c *ctx) error {
 				}
 				shards[i%nShard].Add(vl.Escape("interpval "+vl.Enc(tbl)+" "+canon(before)), vl.Escape("ok "+got))
 				c.res.OracleChecks++
+				if mp.collision && err == nil {
+					// entries whose expanded name no other entry shares are judged one by one
+					names := map[string]int{}
+					for k := range m {
+						if e, ok := expand(k); ok {
+							names[e]++
+						}
+					}
+					for k, v := range m {
+						ek, ok := expand(k)
+						if !ok || names[ek] != 1 {
+							continue
+						}
+						one := &mapper{f: expand}
+						wv := canon(one.any(dump.Any(v)))
+						if gv, has := mm[ek]; !has || canon(dump.Any(gv)) != wv {
+							c.res.Fail(core.OracleFailure{What: "interpolateMap: an entry not involved in any key collision is not the single expansion of the original",
+								Input: map[string]any{"map": canon(before), "key": k}, Got: canon(dump.Any(mm[ek])), Want: wv})
+							break
+						}
+					}
+				}
 				if !mp.collision && got != canon(want) {
 					c.res.Fail(core.OracleFailure{What: "interpolateMap: a string is not the single expansion of the original (escaped value under a renamed key)",
 						Input: map[string]any{"map": canon(before)}, Got: firstDiff(got, canon(want))})
